@@ -34,8 +34,15 @@ ASSUMPTIONS = [
 ]
 
 
-def emit_doc(doc):
-    out = ["data_verif", "#"]
+def emit_doc(doc, extra_blocks=None):
+    text = _emit_block(doc, "verif")
+    for k, blk in enumerate(extra_blocks or []):
+        text += _emit_block(blk, f"more{k + 1}")
+    return text
+
+
+def _emit_block(doc, name):
+    out = [f"data_{name}", "#"]
     for cat in doc:
         name, items, rows, loop = cat["name"], cat["items"], cat["rows"], cat["loop"]
 
@@ -70,7 +77,7 @@ def emit_doc(doc):
 def model_of(text):
     """{category: (items, rows)} via the harness tokenizer"""
     cats = {}
-    for c, items, rows in atomtab.parse_cif(text):
+    for c, items, rows in atomtab.parse_cif(text, all_blocks=True):
         cats[c] = (list(items), [list(r) for r in rows])
     return cats
 
@@ -155,7 +162,7 @@ def oracle(case):
         with corpus.open_corpus(case["file"]) as f:
             text = f.read()
     else:
-        text = emit_doc(case["doc"])
+        text = emit_doc(case["doc"], case.get("extra_blocks"))
     info = case.setdefault("_info", {})
     if not survives_mmcif_package(text):
         # e.g. 6g90_1.cif carries a category written as '__chem_comp' that IoAdapterPy itself does not preserve
@@ -279,6 +286,10 @@ def classify(case):
         labs.append("null-in-edited-category")
     if op.get("target") and cat is not None and op["target"] not in cat["items"]:
         labs.append("new-target-item")
+    if case.get("extra_blocks"):
+        labs.append("several-data-blocks")
+        if any(c["name"] == op["category"] for b in case["extra_blocks"] for c in b):
+            labs.append("edited-category-also-in-another-block")
     return len(doc) >= 3 and multi and nulls and bool(info.get("present")), labs
 
 
@@ -309,6 +320,22 @@ def st_cases():
             nrows = draw(st.integers(1, 6)) if loop else 1
             rows = [[draw(value) for _ in items] for _ in range(nrows)]
             doc.append({"name": nm, "items": items, "rows": rows, "loop": loop})
+        # further data blocks (the library edits the first one): their categories may carry the same names
+        extra = []
+        for _ in range(draw(st.sampled_from([0, 0, 0, 1, 2]))):
+            blk = []
+            bn = draw(st.lists(catname, min_size=1, max_size=3, unique=True))
+            for nm in bn:
+                same = [c for c in doc if c["name"] == nm]
+                if same and draw(st.booleans()):
+                    items = list(same[0]["items"])
+                else:
+                    nit = draw(st.integers(2, 5))
+                    items = draw(st.lists(ident, min_size=nit, max_size=nit, unique=True))
+                loop = draw(st.booleans())
+                nrows = draw(st.integers(1, 4)) if loop else 1
+                blk.append({"name": nm, "items": items, "rows": [[draw(value) for _ in items] for _ in range(nrows)], "loop": loop})
+            extra.append(blk)
         kind = draw(st.sampled_from(["copy", "replace"]))
         cat = draw(st.sampled_from(doc))
         category = draw(st.sampled_from([cat["name"], cat["name"], cat["name"], "absent_cat"]))
@@ -320,7 +347,7 @@ def st_cases():
             col = draw(st.sampled_from(cat["items"] + ["absent_item"]))
             alphabet = draw(st.sampled_from(["ABCDEFGHIJKLMNOPQRSTUVWXYZ", "abcdefghij0123456789", "ZYXWVUTSRQPONMLK", "0123456789abcdefghijklmnopqrstuvwxyz"]))
             op = {"kind": "replace", "category": category, "item": col, "alphabet": alphabet, "defaults": draw(st.integers(0, 9)) == 0}
-        return {"doc": doc, "op": op}
+        return {"doc": doc, "op": op, "extra_blocks": extra}
 
     return build()
 
